@@ -48,6 +48,8 @@ def parseOp : List String → Option Op
   | ["remove", l, id] => (parseLib l).map (fun l => .remove l id)
   | ["save"] => some .save
   | ["query"] => some .query
+  | ["handle", c] => (parseErr c).map .handle
+  | ["clear"] => some .clearIgnore
   | _ => none
 
 def showOut : Out → String
